@@ -911,8 +911,9 @@ MANIFEST_ENTRY = {
              'Kronecker product under the column convention of the Mueller theorems; apply_polarization_optic TRANSLATED (entry * field sample) and a uniform optic proved to commute with polarised '
              'propagation for every homogeneous propagator; facts: the adapter forwards all remaining positional / keyword arguments and appends (2,2) to a component result, add_jones_propagation wraps '
              'exactly the listed functions. PROVED: M(J) S(E) = S(J E) for all complex J, E (S(E) = U (conj E kron E)); pure Stokes vectors satisfy s0 = |Ex|^2+|Ey|^2, s0^2 = s1^2+s2^2+s3^2, so every '
-             'Jones-derived Mueller matrix maps the boundary of the Stokes cone into itself; Mueller rotation covariance M(R(-t) J R(t)) = M(R(t))^-1 M(J) M(R(t)). PARTIAL: preservation of the INTERIOR of '
-             'the cone (partially polarised inputs) is stated (stokes_cone_full) and only exercised numerically (stokes family, pure and mixed inputs).'),
+             'Jones-derived Mueller matrix maps the boundary of the Stokes cone into itself; Mueller rotation covariance M(R(-t) J R(t)) = M(R(t))^-1 M(J) M(R(t)). Third pass: preservation of the WHOLE closed Stokes cone is PROVED (stokes_cone_full_proved, stokes_cone_preserved): for every complex J and every S with S0 >= 0, |S|^2 <= S0^2 '
+             '(fully or partially polarised), M(J) S is in the cone and S0\'^2 - |S\'|^2 = |det J|^2 (S0^2 - |S|^2) (coherency matrix: S = U vec C, C -> conj(J) C J^T, 4 det C, trace as two PSD forms); '
+             'the stokes family exercises it on the real code (pure and mixed inputs, both kron branches).'),
     'note': ('Trusted: Lean kernel + standard axioms; translator (incl. reading jones_rotation_matrix(-theta) as (cos theta, -sin theta)); '
              'NumPy matmul/einsum/kron/inv; IEEE rounding. Not covered: circular_pol_vector(shape=...) '
              '(raises IndexError - outside the statement); apply_polarization_optic for ndim != 2 (docstring and code disagree; outside the '
